@@ -72,6 +72,7 @@ type Case struct {
 	Init       []gen.Row `json:"init"`
 	Ops        []Op      `json:"ops"`
 	Conc       int       `json:"conc"`            // 0 none, otherwise number of unrelated keys a background goroutine keeps upserting/deleting
+	Join2      int       `json:"join2,omitempty"` // direct, non-star: a second join to the static table aux (ak in 1,3,5,7,9) on the stream column x: 1 JOIN, 2 INNER JOIN, 3 LEFT JOIN, 4 LEFT OUTER JOIN; its column aname is selected as aname2
 	Burst      int       `json:"burst,omitempty"` // direct mode: at the end this many goroutines call EmitSync concurrently with rows of different keys
 }
 
@@ -180,6 +181,9 @@ func (c Case) sql() string {
 				sb.WriteString(" AS " + it.As)
 			}
 		}
+		if c.Join2 > 0 {
+			sb.WriteString(", x2.aname AS aname2")
+		}
 	}
 	sb.WriteString(" FROM stream")
 	switch c.SAlias {
@@ -219,6 +223,9 @@ func (c Case) sql() string {
 			l, r = r, l
 		}
 		sb.WriteString(l + " = " + r)
+	}
+	if c.Join2 > 0 {
+		sb.WriteString([]string{"", " JOIN ", " INNER JOIN ", " LEFT JOIN ", " LEFT OUTER JOIN "}[c.Join2] + auxTable + " x2 ON " + c.sPrefix() + "x = x2.ak")
 	}
 	sb.WriteString(c.whereSQL())
 	if c.Mode == "window" {
@@ -370,6 +377,9 @@ func genCase(t *rapid.T) Case {
 	} else {
 		c.Mode = "direct"
 		c.Star = rapid.IntRange(0, 9).Draw(t, "star") == 0
+		if !c.Star && rapid.IntRange(0, 3).Draw(t, "join2") == 0 {
+			c.Join2 = rapid.IntRange(1, 4).Draw(t, "join2kw")
+		}
 	}
 	// WHERE on a joined column
 	if rapid.Bool().Draw(t, "haswhere") {
@@ -599,10 +609,10 @@ var spec = pbt.Spec[Case]{
 	Rule: "generated: INNER/LEFT (short and long spelling), with/without stream and table aliases (implicit and AS), ON with 1-3 pairs " +
 		"(same or different stream/table field names, qualified or bare, stream side left or right, stream key optionally nested), " +
 		"RegisterTable with derived or explicit key fields; key components int/float64/other Go numeric types/string/NULL/missing with " +
-		"look-alikes (1, 1.0, '1', '1.0', -0, 2^53+1) and separator-bearing strings; direct path (SELECT of stream and table columns with " +
+		"look-alikes (1, 1.0, '1', '1.0', -0, 2^53+1) and separator-bearing strings; optionally a second JOIN / INNER JOIN / LEFT [OUTER] JOIN to a static table on another stream column (after the first one, which may be LEFT); direct path (SELECT of stream and table columns with " +
 		"and without AS, SELECT *, WHERE on a joined column) and GROUP BY a joined column over CountingWindow(N); history of 1-24 ops " +
 		"Upsert (source and UpsertTable) / Delete (tuple and scalar form) / EmitSync / Emit with barriers before every table change; " +
-		"optional background goroutine upserting and deleting unrelated keys; optionally a final burst of 2-4 goroutines calling EmitSync concurrently with rows of different keys (table rows' keys and keys that match nothing). Oracle: model table with typed componentwise key equality. " +
+		"optional background goroutine upserting and deleting unrelated keys; optionally a final burst of 2-4 goroutines calling EmitSync concurrently with rows of different keys (table rows' keys and keys that match nothing), for an even number of goroutines while a writer keeps replacing every table row by itself through Upsert / UpsertTable. Oracle: model table with typed componentwise key equality. " +
 		"non-trivial = an upsert/delete of a key between two lookups of that key, or a lookup whose key is a numeric/string or " +
 		"numeric-type look-alike of a table key; distinct = hash of the case JSON",
 	Assumptions: []string{
